@@ -328,19 +328,25 @@ class Interp:
         carried = [self.get(a) for a in op.iter_args]
         block = op.body.blocks[0]
         i = lb
+        n = 0
         self.on_loop_enter(op)
         while i < ub:
+            self.on_iteration(op, block, n)
             kind, vals = self.run_block(block, [wrap(i, w), *carried])
             assert kind == "yield", kind
             carried = vals
             i += step
-        self.on_loop_exit(op)
+            n += 1
+        self.on_loop_exit(op, n)
         self.set_results(op, carried)
 
     def on_loop_enter(self, op):
         pass
 
-    def on_loop_exit(self, op):
+    def on_iteration(self, op, block, n):
+        pass
+
+    def on_loop_exit(self, op, trips=None):
         pass
 
     def _h_if(self, op):
